@@ -21,7 +21,7 @@ OK(r) ==
          /\ r.blocks_movement = BlocksMovement(r.obj)
          /\ r.blocks_vision = BlocksVision(r.obj)
          /\ r.holdable = Holdable(r.obj)
-         /\ r.representable = (r.obj.t \in StateRepresentableTypes \cup {"NoneGridObject", "Coin"})
+         /\ r.representable = (r.obj.t \in StateRepresentableTypes \cup {"NoneGridObject", "Coin", "Gem"})
          /\ WellFormedObj(r.obj, 3)
     [] r.kind = "action" ->
          /\ r.value = ActionIndex(r.name)
